@@ -1,2 +1,360 @@
-#define XV_HAVOC_PUSH pos = 0; c = 0; self->enqueue_pos = 0
-#define XV_HAVOC_POP pos = 0; c = 0; self->dequeue_pos = 0
+/* unit vbq - xenium::vyukov_bounded_queue (C05 vyukov half, C07 ownership).
+ * Contracts, ghost state, invariants and harnesses only; every function body comes from lowered.h (extracted from /repo on each run).
+ *
+ * Model: T is an opaque 64-bit word.  storage_t (std::aligned_storage) carries the ghost lifetime flag of the T object living in it.
+ * The ring has N cells (N is the shape, -DN=..), enqueue_pos / dequeue_pos are arbitrary 64-bit values (all wrap-arounds of the
+ * ring and of the counters).  */
+#include <stdint.h>
+#include <stddef.h>
+#ifndef N
+#define N 4
+#endif
+static void mon_load(void* addr, uint64_t v, int o);
+static void mon_store(void* addr, uint64_t v, int o);
+static void mon_cas(void* addr, uint64_t e, uint64_t d, _Bool ok, int o);
+#define XV_ON_LOAD(addr, val, order) mon_load((void*)(addr), (uint64_t)(val), (order))
+#define XV_ON_STORE(addr, val, order) mon_store((void*)(addr), (uint64_t)(val), (order))
+#define XV_ON_CAS(addr, e, d, ok, order) mon_cas((void*)(addr), (uint64_t)(e), (uint64_t)(d), (ok), (order))
+#include "xv.h"
+int xv_threw; uint64_t xv_clock, xv_rmw_old; _Bool xv_cas_ok;
+
+typedef uint64_t value;                                  /* T */
+typedef struct { value v; _Bool alive; unsigned ctor_n, dtor_n; } storage_t;   /* aligned_storage<T> + ghost: does a T live here; how often constructed / destroyed */
+typedef struct cell { size_t sequence; storage_t data; } cell;
+struct vbq { cell cells[N]; size_t index_mask; size_t enqueue_pos; size_t dequeue_pos; };
+
+/* ------------------------------------------------------------------ event log (monitors) */
+struct ev {
+  unsigned seq_load_n, seq_load_weak_n; size_t last_seq_load_idx; uint64_t last_seq_load_val, last_seq_load_clock;
+  unsigned seq_store_n, seq_store_weak_n; size_t seq_store_idx; uint64_t seq_store_val, seq_store_clock;
+  unsigned enq_cas_ok_n, deq_cas_ok_n; uint64_t cas_exp, cas_des, cas_clock; size_t cas_validated_idx; uint64_t cas_validated_val, cas_validated_clock;
+  unsigned pos_store_n;
+  uint64_t last_enq_load, last_deq_load; _Bool full_at_deq_load, empty_at_enq_load;
+  unsigned ctor_n, dtor_n, succ_n, asT_n; size_t ctor_idx, dtor_idx, succ_idx; uint64_t ctor_clock, dtor_clock, succ_clock;
+  unsigned arg_moved;
+} ev;
+struct ev nondet_ev(void);
+struct vbq* mon_self; value* g_arg;
+static _Bool ev_clean(void) {
+  return ev.seq_store_n == 0 && ev.enq_cas_ok_n == 0 && ev.deq_cas_ok_n == 0 && ev.pos_store_n == 0 && ev.ctor_n == 0 && ev.dtor_n == 0
+      && ev.succ_n == 0 && ev.asT_n == 0 && ev.arg_moved == 0 && ev.seq_load_weak_n == 0 && ev.seq_store_weak_n == 0 && xv_clock < ((uint64_t)1 << 32);
+}
+static size_t cell_index_of(void* addr) {       /* which cell's sequence word is addr (N if none) */
+  for (size_t i = 0; i < N; i++) if (addr == (void*)&mon_self->cells[i].sequence) return i;
+  return N;
+}
+static void mon_load(void* addr, uint64_t v, int o) {
+  size_t i = cell_index_of(addr);
+  if (i < N) { ev.seq_load_n++; if (!XV_IS_ACQUIRE(o)) ev.seq_load_weak_n++; ev.last_seq_load_idx = i; ev.last_seq_load_val = v; ev.last_seq_load_clock = xv_clock; }
+  if (addr == (void*)&mon_self->enqueue_pos) { ev.last_enq_load = v; ev.empty_at_enq_load = (mon_self->enqueue_pos == mon_self->dequeue_pos); }
+  if (addr == (void*)&mon_self->dequeue_pos) { ev.last_deq_load = v; ev.full_at_deq_load = (mon_self->enqueue_pos - mon_self->dequeue_pos == N); }
+}
+static void mon_store(void* addr, uint64_t v, int o) {
+  size_t i = cell_index_of(addr);
+  if (i < N) { ev.seq_store_n++; if (!XV_IS_RELEASE(o)) ev.seq_store_weak_n++; ev.seq_store_idx = i; ev.seq_store_val = v; ev.seq_store_clock = xv_clock; }
+  else ev.pos_store_n++;
+}
+static void mon_cas(void* addr, uint64_t e, uint64_t d, _Bool ok, int o) {
+  if (!ok) return;
+  if (addr == (void*)&mon_self->enqueue_pos) ev.enq_cas_ok_n++; else if (addr == (void*)&mon_self->dequeue_pos) ev.deq_cas_ok_n++; else ev.pos_store_n++;
+  ev.cas_exp = e; ev.cas_des = d; ev.cas_clock = xv_clock;
+  ev.cas_validated_idx = ev.last_seq_load_idx; ev.cas_validated_val = ev.last_seq_load_val; ev.cas_validated_clock = ev.last_seq_load_clock;
+}
+
+/* ------------------------------------------------------------------ primitives: placement new, reinterpret_cast<T&>, ~T */
+#ifdef XV_INT
+#define LIFETIME(cond) ((void)0)      /* lifetime obligations are sequential (see unit.py assumptions) */
+#else
+#define LIFETIME(cond) XV_OBL("vbq.cell.lifetime", cond)
+#endif
+static size_t storage_index(storage_t* s) { for (size_t i = 0; i < N; i++) if (s == &mon_self->cells[i].data) return i; return N; }
+static void xv_placement_new_move(storage_t* s, value* src) {      /* new (&v) T(std::move(source)) */
+  LIFETIME(!s->alive);                                             /* constructing over a live object leaks/overwrites it */
+  s->alive = 1; s->v = *src; s->ctor_n++;
+  ev.ctor_n++; ev.ctor_idx = storage_index(s); ev.ctor_clock = ++xv_clock;
+  if (src == g_arg) ev.arg_moved++;
+}
+static value* xv_as_T(storage_t* s) { LIFETIME(s->alive); ev.asT_n++; return &s->v; }     /* reinterpret_cast<T&>(c->data): must refer to a live T */
+static void xv_destroy_T(value* p) {                               /* p->~T() */
+  storage_t* s = (storage_t*)p;
+  LIFETIME(s->alive);                                              /* double destruction */
+  s->alive = 0; s->dtor_n++;
+  ev.dtor_n++; ev.dtor_idx = storage_index(s); ev.dtor_clock = ++xv_clock;
+}
+#define XV_PLACEMENT_NEW_MOVE(dst, src) xv_placement_new_move((dst), (src))
+#define XV_DATA_AS_T(c) (*xv_as_T(&(c)->data))
+#define XV_DESTROY_T(p) xv_destroy_T(p)
+#define XV_NEW_CELLS(self, size) do { XV_OBL("vbq.ctor.establishes", (size) == N); for (size_t k_ = 0; k_ < N; k_++) { (self)->cells[k_].sequence = nondet_size(); (self)->cells[k_].data.alive = 0; } } while (0)
+#define XV_INIT_index_mask(self, v) ((self)->index_mask = (v))
+/* contract of utils::is_power_of_two (proved in unit utilpow: true iff at most one bit set) */
+static _Bool is_power_of_two(size_t v) { return (v & (v - 1)) == 0; }
+
+/* ------------------------------------------------------------------ representation invariant Inv_V: builder and checker */
+size_t in_n, in_op, in_deq, in_count; value in_val;        /* replay inputs */
+struct vbq g_q0;                                            /* pre-state snapshot */
+static void build(struct vbq* q, size_t deq, size_t count, _Bool mid) {
+  q->index_mask = N - 1; q->dequeue_pos = deq; q->enqueue_pos = deq + count;
+  for (size_t i = 0; i < N; i++) {
+    size_t p = deq + i; cell* c = &q->cells[p & (N - 1)];
+    c->data.v = nondet_u64(); c->data.ctor_n = 0; c->data.dtor_n = 0;
+    if (i < count) { c->sequence = p + 1; c->data.alive = 1; if (mid && nondet_bool()) { c->sequence = p; c->data.alive = nondet_bool(); } }       /* mid: push of p claimed, not yet published */
+    else { c->sequence = p; c->data.alive = 0; if (mid && nondet_bool()) { c->sequence = p - N + 1; c->data.alive = nondet_bool(); } }                /* mid: pop of p-N claimed, cell not yet released */
+  }
+}
+static _Bool inv_pos(struct vbq* q, size_t deq, size_t count) {
+  return q->index_mask == N - 1 && q->dequeue_pos == deq && q->enqueue_pos == deq + count && count <= N;
+}
+static _Bool inv_cell(struct vbq* q, size_t deq, size_t count, size_t i) {       /* i: offset from deq, i < N */
+  size_t p = deq + i; cell* c = &q->cells[p & (N - 1)];
+  return i < count ? (c->sequence == p + 1 && c->data.alive) : (c->sequence == p && !c->data.alive);
+}
+static _Bool cell_same(cell* a, cell* b) {
+  return a->sequence == b->sequence && a->data.v == b->data.v && a->data.alive == b->data.alive && a->data.ctor_n == b->data.ctor_n && a->data.dtor_n == b->data.dtor_n;
+}
+static _Bool pos_same(struct vbq* a, struct vbq* b) { return a->index_mask == b->index_mask && a->enqueue_pos == b->enqueue_pos && a->dequeue_pos == b->dequeue_pos; }
+
+/* ------------------------------------------------------------------ INT environment */
+#ifdef XV_INT
+_Bool env_on; int env_mode;        /* 0: anything; 1: positions only advance (< 2^63 in total), 0 <= enq-deq <= N */
+uint64_t env_tot_enq, env_tot_deq;
+#define ENV_BUDGET ((uint64_t)1 << 63)
+static void havoc_shared(struct vbq* q) {
+  for (size_t i = 0; i < N; i++) q->cells[i].sequence = nondet_size();
+  if (env_mode == 0) { q->enqueue_pos = nondet_size(); q->dequeue_pos = nondet_size(); }
+  else {
+    uint64_t a = nondet_u64(), b = nondet_u64();
+    XV_ASSUME(a < ENV_BUDGET - env_tot_enq && b < ENV_BUDGET - env_tot_deq);
+    env_tot_enq += a; env_tot_deq += b; q->enqueue_pos += a; q->dequeue_pos += b;
+    XV_ASSUME(q->enqueue_pos - q->dequeue_pos <= N);
+  }
+}
+void xv_env(void) { if (env_on) havoc_shared(mon_self); }
+#endif
+
+/* ------------------------------------------------------------------ loop cuts (retry loops of do_try_push / do_try_pop) */
+static void havoc_loop_state(struct vbq* self) {
+  ev = nondet_ev(); xv_clock = nondet_u64();
+#ifdef XV_INT
+  env_tot_enq = nondet_u64(); env_tot_deq = nondet_u64();
+  if (env_mode == 0) havoc_shared(self);
+  else { for (size_t i = 0; i < N; i++) self->cells[i].sequence = nondet_size(); }    /* positions are havocked by the macro itself and constrained by the invariant */
+#endif
+}
+static _Bool inv_loop(struct vbq* self, size_t pos, _Bool push) {
+  if (!ev_clean()) return 0;
+#ifdef XV_INT
+  if (env_mode == 1) return env_tot_enq < ENV_BUDGET && env_tot_deq < ENV_BUDGET && self->enqueue_pos - self->dequeue_pos <= N;
+  return 1;
+#else
+  /* no interference: nothing has been written yet, pos is the current position */
+  return pos_same(self, &g_q0) && pos == (push ? self->enqueue_pos : self->dequeue_pos);
+#endif
+}
+#define XV_INV_PUSH inv_loop(self, pos, 1)
+#define XV_HAVOC_PUSH pos = nondet_size(); c = 0; self->enqueue_pos = nondet_size(); IF_INT(self->dequeue_pos = nondet_size();) havoc_loop_state(self)
+#define XV_INV_POP inv_loop(self, pos, 0)
+#define XV_HAVOC_POP pos = nondet_size(); c = 0; self->dequeue_pos = nondet_size(); IF_INT(self->enqueue_pos = nondet_size();) havoc_loop_state(self)
+#ifdef XV_INT
+#define IF_INT(x) x
+#else
+#define IF_INT(x)
+#endif
+
+/* which lowering of the retry loop a run uses: the cut one (partial correctness, any number of retries) or the original one (with unwinding assertion) */
+#if defined(XV_INT)
+#define DO_PUSH_S vbq_do_try_push_s_cut
+#define DO_PUSH_W vbq_do_try_push_w_cut
+#define DO_POP_S vbq_do_try_pop_s_cut
+#define DO_POP_W vbq_do_try_pop_w_cut
+#elif defined(XV_SOLO)
+#define DO_PUSH_S vbq_do_try_push_s
+#define DO_PUSH_W vbq_do_try_push_w
+#define DO_POP_S vbq_do_try_pop_s
+#define DO_POP_W vbq_do_try_pop_w
+#else
+#define DO_PUSH_S vbq_do_try_push_s
+#define DO_PUSH_W vbq_do_try_push_w_cut
+#define DO_POP_S vbq_do_try_pop_s
+#define DO_POP_W vbq_do_try_pop_w_cut
+#endif
+#define DO_PUSH_DEFAULT(self, a) ((XV_DEFAULT_TO_WEAK) ? DO_PUSH_W(self, a) : DO_PUSH_S(self, a))
+#define DO_POP_DEFAULT(self, r) ((XV_DEFAULT_TO_WEAK) ? DO_POP_W(self, r) : DO_POP_S(self, r))
+
+static void vbq_assign_value(struct vbq* self, storage_t* v_p, value* source_p);
+static _Bool vbq_tps_success(value* result_p, value* v_p); static _Bool vbq_tps_empty(void);
+static _Bool vbq_tpw_success(value* result_p, value* v_p); static _Bool vbq_tpw_empty(void);
+static _Bool vbq_tpd_success(value* result_p, value* v_p); static _Bool vbq_tpd_empty(void);
+#include "lowered.h"
+
+/* the success lambdas are observed through their effect: result written from a live cell (xv_as_T counted) */
+
+/* ------------------------------------------------------------------ harness helpers */
+static void start(struct vbq* q, size_t op, _Bool mid) {
+  in_n = N; in_op = op;
+  in_deq = nondet_size(); in_count = nondet_size(); XV_ASSUME(in_count <= N);
+  build(q, in_deq, in_count, mid);
+  g_q0 = *q; mon_self = q;
+  struct ev z = {0}; ev = z; xv_clock = 0;
+}
+typedef _Bool (*push_fn)(struct vbq*, value*);
+typedef _Bool (*pop_fn)(struct vbq*, value*);
+
+/* ---- SEQ: push from any Inv_V state */
+#define SEQ_PUSH(hname, fn, opcode, STRONG, tag) \
+void hname(void) { \
+  struct vbq q; start(&q, opcode, 0); \
+  value arg = nondet_u64(); in_val = arg; g_arg = &arg; \
+  _Bool r = fn(&q, &arg); \
+  _Bool full = (in_count == N); size_t enq0 = in_deq + in_count, t = enq0 & (N - 1); \
+  size_t j = nondet_size(); XV_ASSUME(j < N);                 /* arbitrary cell */ \
+  size_t i = nondet_size(); XV_ASSUME(i < N);                 /* arbitrary offset */ \
+  if (STRONG) XV_OBL("vbq.push_strong.full_iff", r == !full); \
+  else { XV_OBL("vbq.weak.no_wrong_success", !(r && full)); XV_OBL("vbq.weak.seq_no_spurious", r == !full); } \
+  if (!r) { \
+    if (STRONG) XV_OBL("vbq.push_strong.full_iff", pos_same(&q, &g_q0) && cell_same(&q.cells[j], &g_q0.cells[j])); \
+    else XV_OBL("vbq.weak.no_wrong_success", pos_same(&q, &g_q0) && cell_same(&q.cells[j], &g_q0.cells[j])); \
+    XV_OBL("vbq.push.rejected_stays_with_caller", ev.arg_moved == 0 && ev.ctor_n == 0 && ev.dtor_n == 0 && arg == in_val); \
+    XV_OBL("vbq.inv.preserved", inv_pos(&q, in_deq, in_count) && inv_cell(&q, in_deq, in_count, i)); \
+    XV_CANARY(tag ".full"); \
+    if ((size_t)(enq0) < N) XV_CANARY(tag ".full_wrapped");        /* enqueue_pos has wrapped around 2^64, dequeue_pos not yet */ \
+  } else { \
+    XV_OBL("vbq.fifo", q.enqueue_pos == enq0 + 1 && q.dequeue_pos == in_deq && q.index_mask == N - 1);      /* the value goes to position enq */ \
+    XV_OBL("vbq.fifo", q.cells[t].data.v == in_val && q.cells[t].sequence == enq0 + 1); \
+    if (j != t) XV_OBL("vbq.fifo", cell_same(&q.cells[j], &g_q0.cells[j]));                                   /* nothing else touched */ \
+    XV_OBL("vbq.inv.preserved", inv_pos(&q, in_deq, in_count + 1) && inv_cell(&q, in_deq, in_count + 1, i)); \
+    XV_OBL("vbq.push.accepted_owned", ev.arg_moved == 1 && ev.ctor_n == 1 && ev.ctor_idx == t && ev.dtor_n == 0 && q.cells[t].data.alive && q.cells[t].data.ctor_n == 1); \
+    XV_OBL("vbq.sync.cell_sequence", ev.seq_store_n == 1 && ev.seq_store_weak_n == 0 && ev.seq_load_weak_n == 0 && ev.ctor_clock < ev.seq_store_clock); \
+    if (!STRONG) XV_OBL("vbq.weak.no_wrong_success", !full); \
+    XV_CANARY(tag ".ok"); \
+    if (enq0 + 1 == 0) XV_CANARY(tag ".ok_wrap"); \
+    if (in_count == N - 1) XV_CANARY(tag ".ok_becomes_full"); \
+  } \
+}
+SEQ_PUSH(h_push_strong, vbq_try_push_strong, 0, 1, "push_s")
+SEQ_PUSH(h_push_weak, vbq_try_push_weak, 1, 0, "push_w")
+SEQ_PUSH(h_push_default, vbq_try_push, 4, !(XV_DEFAULT_TO_WEAK), "push_d")
+
+/* ---- SEQ: pop from any Inv_V state */
+#define SEQ_POP(hname, fn, opcode, STRONG, tag) \
+void hname(void) { \
+  struct vbq q; start(&q, opcode, 0); \
+  value res = nondet_u64(); in_val = res; g_arg = 0; \
+  _Bool r = fn(&q, &res); \
+  _Bool empty = (in_count == 0); size_t t = in_deq & (N - 1); \
+  size_t j = nondet_size(); XV_ASSUME(j < N); \
+  size_t i = nondet_size(); XV_ASSUME(i < N); \
+  if (STRONG) XV_OBL("vbq.pop_strong.empty_iff", r == !empty); \
+  else { XV_OBL("vbq.weak.no_wrong_success", !(r && empty)); XV_OBL("vbq.weak.seq_no_spurious", r == !empty); } \
+  if (!r) { \
+    if (STRONG) XV_OBL("vbq.pop_strong.empty_iff", pos_same(&q, &g_q0) && cell_same(&q.cells[j], &g_q0.cells[j]) && res == in_val); \
+    else XV_OBL("vbq.weak.no_wrong_success", pos_same(&q, &g_q0) && cell_same(&q.cells[j], &g_q0.cells[j]) && res == in_val); \
+    XV_OBL("vbq.cell.lifetime", ev.ctor_n == 0 && ev.dtor_n == 0 && ev.asT_n == 0); \
+    XV_OBL("vbq.inv.preserved", inv_pos(&q, in_deq, in_count) && inv_cell(&q, in_deq, in_count, i)); \
+    XV_CANARY(tag ".empty"); \
+    if (in_deq + 1 == 0) XV_CANARY(tag ".empty_at_max"); \
+  } else { \
+    XV_OBL("vbq.fifo", res == g_q0.cells[t].data.v);                                                        /* the value of the oldest position deq */ \
+    XV_OBL("vbq.fifo", q.dequeue_pos == in_deq + 1 && q.enqueue_pos == in_deq + in_count && q.index_mask == N - 1); \
+    XV_OBL("vbq.fifo", q.cells[t].sequence == in_deq + N); \
+    if (j != t) XV_OBL("vbq.fifo", cell_same(&q.cells[j], &g_q0.cells[j])); \
+    XV_OBL("vbq.inv.preserved", inv_pos(&q, in_deq + 1, in_count - 1) && inv_cell(&q, in_deq + 1, in_count - 1, i)); \
+    XV_OBL("vbq.pop.destroys_once", ev.dtor_n == 1 && ev.dtor_idx == t && ev.ctor_n == 0 && !q.cells[t].data.alive && q.cells[t].data.dtor_n == 1 && ev.asT_n == 1); \
+    XV_OBL("vbq.sync.cell_sequence", ev.seq_store_n == 1 && ev.seq_store_weak_n == 0 && ev.seq_load_weak_n == 0 && ev.dtor_clock < ev.seq_store_clock); \
+    XV_CANARY(tag ".ok"); \
+    if (in_deq + 1 == 0) XV_CANARY(tag ".ok_wrap"); \
+    if (in_count == N) XV_CANARY(tag ".ok_from_full"); \
+  } \
+}
+SEQ_POP(h_pop_strong, vbq_try_pop_strong, 2, 1, "pop_s")
+SEQ_POP(h_pop_weak, vbq_try_pop_weak, 3, 0, "pop_w")
+SEQ_POP(h_pop_default, vbq_try_pop, 5, !(XV_DEFAULT_TO_WEAK), "pop_d")
+
+/* ---- constructor / destructor */
+void h_ctor(void) {
+  struct vbq q; in_n = N; in_op = 6;
+  q.index_mask = nondet_size(); q.enqueue_pos = nondet_size(); q.dequeue_pos = nondet_size();
+  for (size_t k = 0; k < N; k++) { q.cells[k].sequence = nondet_size(); q.cells[k].data.v = nondet_u64(); q.cells[k].data.alive = nondet_bool(); q.cells[k].data.ctor_n = 0; q.cells[k].data.dtor_n = 0; }
+  mon_self = &q; struct ev z = {0}; ev = z;
+  vbq_ctor(&q, N);
+  size_t i = nondet_size(); XV_ASSUME(i < N);
+  XV_OBL("vbq.ctor.establishes", inv_pos(&q, 0, 0) && inv_cell(&q, 0, 0, i));
+  XV_OBL("vbq.ctor.establishes", ev.ctor_n == 0 && ev.dtor_n == 0);
+  XV_CANARY("ctor.done");
+}
+void h_dtor(void) {
+  struct vbq q; start(&q, 7, 0);
+  vbq_dtor(&q);
+  size_t i = nondet_size(); XV_ASSUME(i < N);            /* offset from deq */
+  cell* c = &q.cells[(in_deq + i) & (N - 1)];
+  XV_OBL("vbq.dtor.owns", c->data.dtor_n == (i < in_count ? 1 : 0) && !c->data.alive && c->data.ctor_n == 0);
+  XV_OBL("vbq.dtor.owns", ev.dtor_n == in_count && ev.ctor_n == 0);
+  if (i < in_count) XV_CANARY("dtor.destroyed"); else XV_CANARY("dtor.skipped");
+  if (in_count == N) XV_CANARY("dtor.full");
+  if (in_count == 0) XV_CANARY("dtor.empty");
+  if ((size_t)(in_deq + in_count) < in_deq) XV_CANARY("dtor.wrapped");
+}
+
+/* ---- INT: commit obligations under an arbitrary environment (env_mode 0) and full/empty instants under the monotone rely (env_mode 1) */
+#ifdef XV_INT
+#define INT_PUSH(hname, fn, opcode, STRONG, tag) \
+void hname(void) { \
+  struct vbq q; start(&q, opcode, 0); env_mode = ENV_MODE; env_tot_enq = 0; env_tot_deq = 0; \
+  value arg = nondet_u64(); in_val = arg; g_arg = &arg; \
+  env_on = 1; _Bool r = fn(&q, &arg); env_on = 0; \
+  XV_OBL("vbq.push.commit", ev.deq_cas_ok_n == 0 && ev.pos_store_n == 0 && ev.dtor_n == 0 && ev.asT_n == 0); \
+  if (r) { \
+    size_t t = ev.cas_exp & (N - 1); \
+    XV_OBL("vbq.push.commit", ev.enq_cas_ok_n == 1 && ev.cas_des == ev.cas_exp + 1); \
+    XV_OBL("vbq.push.commit", ev.cas_validated_idx == t && ev.cas_validated_val == ev.cas_exp && ev.cas_validated_clock < ev.cas_clock);   /* the claimed position is the one whose cell was just seen free */ \
+    XV_OBL("vbq.push.commit", ev.ctor_n == 1 && ev.ctor_idx == t && ev.arg_moved == 1 && ev.cas_clock < ev.ctor_clock);                    /* value constructed in that cell, after the claim */ \
+    XV_OBL("vbq.push.commit", ev.seq_store_n == 1 && ev.seq_store_idx == t && ev.seq_store_val == ev.cas_exp + 1 && ev.ctor_clock < ev.seq_store_clock);  /* then published */ \
+    XV_OBL("vbq.sync.cell_sequence", ev.seq_store_weak_n == 0 && ev.seq_load_weak_n == 0); \
+    XV_CANARY(tag ".int_ok"); \
+  } else { \
+    XV_OBL(STRONG ? "vbq.push.commit" : "vbq.weak.no_wrong_success", ev.enq_cas_ok_n == 0 && ev.seq_store_n == 0 && ev.ctor_n == 0 && ev.arg_moved == 0 && arg == in_val); \
+    if (STRONG && ENV_MODE == 1) XV_OBL("vbq.push_strong.full_instant", ev.full_at_deq_load); \
+    XV_CANARY(tag ".int_fail"); \
+  } \
+}
+#define INT_POP(hname, fn, opcode, STRONG, tag) \
+void hname(void) { \
+  struct vbq q; start(&q, opcode, 0); env_mode = ENV_MODE; env_tot_enq = 0; env_tot_deq = 0; \
+  value res = nondet_u64(); in_val = res; g_arg = 0; \
+  env_on = 1; _Bool r = fn(&q, &res); env_on = 0; \
+  XV_OBL("vbq.pop.commit", ev.enq_cas_ok_n == 0 && ev.pos_store_n == 0 && ev.ctor_n == 0); \
+  if (r) { \
+    size_t t = ev.cas_exp & (N - 1); \
+    XV_OBL("vbq.pop.commit", ev.deq_cas_ok_n == 1 && ev.cas_des == ev.cas_exp + 1); \
+    XV_OBL("vbq.pop.commit", ev.cas_validated_idx == t && ev.cas_validated_val == ev.cas_exp + 1 && ev.cas_validated_clock < ev.cas_clock); \
+    XV_OBL("vbq.pop.commit", ev.dtor_n == 1 && ev.dtor_idx == t && ev.asT_n == 1 && ev.cas_clock < ev.dtor_clock && res == q.cells[t].data.v); \
+    XV_OBL("vbq.pop.commit", ev.seq_store_n == 1 && ev.seq_store_idx == t && ev.seq_store_val == ev.cas_exp + N && ev.dtor_clock < ev.seq_store_clock); \
+    XV_OBL("vbq.sync.cell_sequence", ev.seq_store_weak_n == 0 && ev.seq_load_weak_n == 0); \
+    XV_CANARY(tag ".int_ok"); \
+  } else { \
+    XV_OBL(STRONG ? "vbq.pop.commit" : "vbq.weak.no_wrong_success", ev.deq_cas_ok_n == 0 && ev.seq_store_n == 0 && ev.dtor_n == 0 && ev.asT_n == 0 && res == in_val); \
+    if (STRONG && ENV_MODE == 1) XV_OBL("vbq.pop_strong.empty_instant", ev.empty_at_enq_load); \
+    XV_CANARY(tag ".int_fail"); \
+  } \
+}
+#ifndef ENV_MODE
+#define ENV_MODE 0
+#endif
+INT_PUSH(h_push_strong_int, vbq_try_push_strong, 0, 1, "push_s")
+INT_PUSH(h_push_weak_int, vbq_try_push_weak, 1, 0, "push_w")
+INT_POP(h_pop_strong_int, vbq_try_pop_strong, 2, 1, "pop_s")
+INT_POP(h_pop_weak_int, vbq_try_pop_weak, 3, 0, "pop_w")
+#endif
+
+/* ---- SOLO: the weak (lock-free) operations return within 2 iterations from every mid-operation state, without interference */
+#ifdef XV_SOLO
+void h_solo_push_weak(void) {
+  struct vbq q; start(&q, 1, 1); value arg = nondet_u64(); in_val = arg; g_arg = &arg;
+  _Bool r = vbq_try_push_weak(&q, &arg);
+  if (r) XV_CANARY("solo_push_w.ok"); else XV_CANARY("solo_push_w.fail");
+}
+void h_solo_pop_weak(void) {
+  struct vbq q; start(&q, 3, 1); value res = nondet_u64(); in_val = res;
+  _Bool r = vbq_try_pop_weak(&q, &res);
+  if (r) XV_CANARY("solo_pop_w.ok"); else XV_CANARY("solo_pop_w.fail");
+}
+#endif
